@@ -227,7 +227,9 @@ func c20Table(seed []byte) []func() *c20Val {
 		v4(func() dhcpv4.Option {
 			return dhcpv4.OptVIVC(dhcpv4.VIVCIdentifier{EntID: 0, Data: nil}, dhcpv4.VIVCIdentifier{EntID: 9, Data: bs(0, 4)}, dhcpv4.VIVCIdentifier{EntID: 9, Data: []byte{}})
 		}),
-		v4(func() dhcpv4.Option { return dhcpv4.OptDNS(net.IP{0, 0, 0, 0}, net.IP(bs(1, 4)), nil, net.IP(bs(2, 4))) }),
+		v4(func() dhcpv4.Option {
+			return dhcpv4.OptDNS(net.IP{0, 0, 0, 0}, net.IP(bs(1, 4)), nil, net.IP(bs(2, 4)))
+		}),
 		v4(func() dhcpv4.Option { return dhcpv4.OptRouter() }),
 		v4(func() dhcpv4.Option { return dhcpv4.OptParameterRequestList() }),
 		v4(func() dhcpv4.Option {
@@ -252,8 +254,12 @@ func c20Table(seed []byte) []func() *c20Val {
 		// list elements longer than their length field can announce, followed by ordinary ones (an encoder may skip, cut
 		// or refuse such an element; the list the caller built stays the caller's)
 		v6(func() dhcpv6.Option { return dhcpv6.OptBootFileParam("a", string(bs(0, 65536)), "b", "c") }),
-		v6(func() dhcpv6.Option { return dhcpv6.OptBootFileParam(string(bs(1, 65535)), "b", string(bs(0, 70000)), "c") }),
-		v6(func() dhcpv6.Option { return &dhcpv6.OptUserClass{UserClasses: [][]byte{bs(0, 2), bs(0, 65536), bs(1, 3)}} }),
+		v6(func() dhcpv6.Option {
+			return dhcpv6.OptBootFileParam(string(bs(1, 65535)), "b", string(bs(0, 70000)), "c")
+		}),
+		v6(func() dhcpv6.Option {
+			return &dhcpv6.OptUserClass{UserClasses: [][]byte{bs(0, 2), bs(0, 65536), bs(1, 3)}}
+		}),
 		v6(func() dhcpv6.Option {
 			return &dhcpv6.OptVendorClass{EnterpriseNumber: 9, Data: [][]byte{bs(0, 65536), bs(0, 2), bs(1, 3)}}
 		}),
